@@ -4,6 +4,7 @@ C04 — Parsed record header equals the header that was written.
 import LA.Proofs.AuparseHeader
 import LA.Proofs.TablesRT
 import LA.Proofs.Trim
+import LA.Proofs.StateFacts
 
 namespace LA.Auparse
 open LA LA.MsgType
@@ -348,3 +349,9 @@ example : trimSpace (writtenHeader 1490137971 11 50406 ++ ofString ": " ++ ofStr
   simpa [writtenHeader, ofString] using this
 
 end LA.Auparse
+
+/-! ### the code keeps nothing between calls that the model does not have -/
+
+/-- Outside `init`, no function of package auparse writes a package-level variable, takes the address of one or calls a
+sync/atomic method on one (regenerated list, see LA.Proofs.StateFacts): the parser is a function of its argument. -/
+theorem C04_parser_keeps_nothing_between_calls : LA.StateFacts.ofPkg "auparse" = [] := by decide
